@@ -186,6 +186,9 @@ type VC struct {
 	epochBound    map[int]string // allocation bound right after the call that made a wildcard epoch
 	pendingBound  string         // bound to state for object-component memories declared right now
 	localAlloc    bool           // the allocation being executed is a non-escaping local
+	inl           []*ssa.Function // helpers being executed in place (inline.go)
+	inlR          string
+	inlMem        *Mem
 }
 
 type debugBinding struct {
